@@ -134,7 +134,14 @@ def consume_one(ctx, acc, idx, case, res, vectors):
                       dict(case=case, crash=res["crash"], detail=res.get("detail", "")[:3000]))
         return
     r = res["res"]
-    if r.get("harness_error") or r.get("harness_panic"):
+    hp = r.get("harness_panic")
+    if hp and str(hp.get("frame", "")).startswith("schema."):
+        # the SDK itself panicked on a call the harness makes outside its guarded comparisons (the binding check
+        # calls well-formed functions with well-formed arguments): that is the code's behaviour, not the harness's
+        ctx.violation(dict(op=case.get("op"), divergence="panic", frame=hp.get("frame", "")),
+                      dict(case=case, panic=hp))
+        return
+    if r.get("harness_error") or hp:
         raise common.Infra("harness failure on %s: %s" % (json.dumps(case)[:300], json.dumps(r)[:600]))
     if r.get("bind_error"):
         raise common.Infra("binding table out of date: " + r["bind_error"])
@@ -264,11 +271,12 @@ def run(ctx):
     cases = rand_cases(ctx, 12, 1500 if thorough else 150)
     run_rand(ctx, acc, cases)
     ctx.sample(cases[0])
-    if not acc.trace:
+    if not acc.trace and not ctx.violations:
         raise common.Infra("the random driver recorded no trace lines")
-    ok = validate_trace(ctx, acc.trace, lambda ci: cases[ci])
+    ok = validate_trace(ctx, acc.trace, lambda ci: cases[ci]) if acc.trace else 0
     ctx.traces += ok
-    ctx.sample(acc.trace[0][1])
+    if acc.trace:
+        ctx.sample(acc.trace[0][1])
     for _, l in acc.trace:
         if l["ev"] == "call":
             ctx.sample(l)
